@@ -341,6 +341,42 @@ fn c11_c12(args: &Args, prop: &'static str) -> ! {
                 }
             }
         }
+        // labelled random tail (sampling, not part of the exhaustive claim): random Unicode strings and
+        // byte-level mutations of corpus definitions
+        if thorough {
+            let mut rng = Rng(args.seed ^ 0xC12 ^ ((args.shard as u64) << 40));
+            let pool: Vec<char> = "abzAZ09_-.:,()[]?#>\n\r\t \u{2028}\u{2029}\u{a0}\u{feff}\u{3000}\u{e4}\u{20ac}\u{1F600}\u{0}\u{7f}\u{fffd}".chars().collect();
+            for _ in 0..20000 {
+                let len = rng.below(40) as usize;
+                let s: String = (0..len).map(|_| pool[rng.below(pool.len() as u64) as usize]).collect();
+                let text = if rng.below(2) == 0 { s } else { format!("interface a.b\n{}", s) };
+                cx.rep.count("random_unicode_strings", 1);
+                cx.case("random", &text);
+            }
+            for t in corpus.iter().take(8) {
+                let b = t.as_bytes();
+                for _ in 0..1500 {
+                    let mut m = b.to_vec();
+                    for _ in 0..(1 + rng.below(3)) {
+                        if m.is_empty() {
+                            break;
+                        }
+                        let pos = rng.below(m.len() as u64) as usize;
+                        match rng.below(4) {
+                            0 => m[pos] ^= 1 << rng.below(8),
+                            1 => {
+                                m.remove(pos);
+                            }
+                            2 => m.insert(pos, rng.below(256) as u8),
+                            _ => m.truncate(pos),
+                        }
+                    }
+                    let text = String::from_utf8_lossy(&m).to_string();
+                    cx.rep.count("random_byte_mutations", 1);
+                    cx.case("mutation", &text);
+                }
+            }
+        }
         // nesting depth
         let depths: Vec<usize> = if thorough { (1..=200).collect() } else { vec![1, 2, 3, 10, 50, 100, 150, 199, 200] };
         for d in depths {
